@@ -104,3 +104,19 @@ for _n in _FENV:
 for _n in (17, 18, 19):
     _note_mt(PROPS['C%02d' % _n])
 _note_fenv(PROPS['C19'])
+
+# the library as users run it (seeded change C04-K): -O3, NDEBUG, no sanitizer, strict aliasing; the harness stays at -O1 (hflavour). Half of the cases.
+_O3 = list(range(1, 20))
+
+
+def _with_o3(spec):
+    base = spec['configs'] if 'configs' in spec else (lambda tier: [dict(name='default')])
+    spec['configs'] = lambda tier: base(tier) + [dict(name='o3-unsanitised', flavour='o3', hflavour='plain', libdrop=['-fno-strict-aliasing'], nworkers=4, of=8)]
+    spec['parallel_configs'] = spec.get('parallel_configs', 1) + 1
+    spec['technique'] = spec.get('technique', '') + '; the same workload against an unsanitised -O3 -DNDEBUG build of the library'
+    spec['assumptions'] = list(spec.get('assumptions', [])) + ['configuration o3-unsanitised: library at -O3 -DNDEBUG with strict aliasing and without sanitizer instrumentation (which itself '
+                                                               'suppresses optimisations); judged by the models and oracles alone; half of the cases']
+
+
+for _n in _O3:
+    _with_o3(PROPS['C%02d' % _n])
